@@ -110,6 +110,9 @@ class Grover(QAlgorithm):
     def decode_output(
         self, istr: Union[str, int, List[bool]]
     ) -> Union[bool, Tuple, Qtype]:
+        if isinstance(istr, int) and not isinstance(istr, bool):
+            # an integer reading has no leading zeros: restore them up to the register size
+            istr = bin(istr)[2:].zfill(len(self.oracle.args[0]))
         return interpret_as_qtype(
             istr, self.oracle.args[0].ttype, len(self.oracle.args[0])
         )
